@@ -1,6 +1,7 @@
 package main
 
 import (
+	"net/url"
 	"encoding/json"
 	"fmt"
 	"sort"
@@ -232,6 +233,78 @@ func runC08(c *Ctx) {
 		}
 		if len(c.Res.Samples) < 3 && len(bad) > 0 {
 			c.Sample(map[string]interface{}{"faults": fs, "unresolvable": bad, "mode": o.String()})
+		}
+	}
+	c08ContainerProbes(c)
+}
+
+// c08ContainerProbes: references whose pointer runs THROUGH the typed containers of the root (an operation's
+// responses by status code or `default`, parameter lists by index, optional members of parameters, responses and
+// schemas that are not set). The random graphs above only refer to section entries and to nested schema
+// keywords; a lookup that answers a missing status code or index with a zero value instead of an error is only
+// visible here. Oracle: RFC 6901 on the JSON text of the root; strict expansion must fail iff the probe designates
+// nothing.
+func c08ContainerProbes(c *Ctx) {
+	nw := c.N(6, 120)
+	for wi, tries := 0, 0; wi < nw && tries < 20*nw; tries++ {
+		w := c05World(c)
+		// only worlds whose own references all resolve (three of the four layouts lack a sibling `other.json`)
+		base := expandWorld(w, expOpts{})
+		if base.Err != nil || base.Panic != "" || base.Hang {
+			continue
+		}
+		wi++
+		for _, t := range c05Targets(w) {
+			if t.doc != w.Root || len(t.toks) < 3 {
+				continue
+			}
+			section, name := "", "zzprobe"
+			switch t.kind {
+			case "schema":
+				section = "definitions"
+			case "parameter":
+				section = "parameters"
+			case "response":
+				section = "responses"
+			case "pathItem":
+				section, name = "paths", "/zzprobe"
+			default:
+				continue
+			}
+			var esc []string
+			for _, tok := range t.toks {
+				esc = append(esc, refgraph.PtrEscape(tok))
+			}
+			ptr := (&url.URL{Fragment: "/" + strings.Join(esc, "/")}).String() // percent-escaped as a URL fragment
+			key, kerr := refgraph.ResolveRef(w.Root, ptr)
+			designates := false
+			if kerr == nil {
+				if sub, ok := w.Lookup(key); ok && sub.Kind == wire.Obj {
+					designates = true
+				}
+			}
+			w2 := w.Clone()
+			root := w2.Docs[w2.Root]
+			sec, _ := root.Get(section)
+			if sec.Kind != wire.Obj {
+				sec = wire.ObjV()
+			}
+			w2.Docs[w2.Root] = root.Set(section, sec.Set(name, wire.ObjV(wire.M("$ref", wire.StrV(ptr)))))
+			if _, err := decodeSwagger(w2.Docs[w2.Root]); err != nil {
+				continue
+			}
+			cs := map[string]interface{}{"world": worldJSON(w2), "probe": ptr, "as": t.kind, "designates": designates}
+			c.Count(fmt.Sprint(worldJSON(w2)), true)
+			c.Hit(fmt.Sprintf("probe:%s:designates=%v", t.kind, designates))
+			res := expandWorld(w2, expOpts{})
+			switch {
+			case res.Hang || res.Panic != "":
+				c.Fail(Failure{Kind: "crash", Sig: "C04:panic", What: "ExpandSpec panicked or hung on a probe: " + res.Panic, Case: cs})
+			case !designates && res.Err == nil:
+				c.Fail(Failure{Kind: "oracle", Sig: "C08:silent-failure", What: fmt.Sprintf("%s designates nothing in the root document but ExpandSpec returned no error", ptr), Case: cs, Impl: clip(res.Out.Text())})
+			case designates && res.Err != nil:
+				c.Fail(Failure{Kind: "oracle", Sig: "C08:spurious-error", What: fmt.Sprintf("%s designates an object but ExpandSpec fails: %v", ptr, res.Err), Case: cs})
+			}
 		}
 	}
 }
